@@ -5,7 +5,8 @@ from common import *  # noqa
 from engine import prop, rule
 
 POOL_EXEC = "threadpool::ThreadPool::execute"
-SEND = "std::sync::mpsc::Sender::<T>::send"
+# a bounded SyncSender reports as well; that it may block is R03.8's business
+SEND = ("std::sync::mpsc::Sender::<T>::send", "std::sync::mpsc::SyncSender::<T>::send")
 TRY_RECV = "std::sync::mpsc::Receiver::<T>::try_recv"
 PPMODES = frozenset(["FirstPassExecute", "Execute", "CollectDeps"])
 
@@ -286,7 +287,8 @@ def r02_5(ctx):
 
 @rule("C02", "R02.6", floor=2)
 def r02_6(ctx):
-    allowed = ("std::sync::mpsc::Sender<%s>" % ADT["TaskResult"], "std::sync::Arc<%s>" % ADT["Shell"], ADT["AbsPath"], ADT["Mode"], "bool")
+    allowed = ("std::sync::mpsc::Sender<%s>" % ADT["TaskResult"], "std::sync::mpsc::SyncSender<%s>" % ADT["TaskResult"],
+               "std::sync::Arc<%s>" % ADT["Shell"], ADT["AbsPath"], ADT["Mode"], "bool")
     for sb, sbb, t, cl in spawner_bodies(ctx):
         if cl is None:
             continue
@@ -804,3 +806,64 @@ def r02_9(ctx):
     two spellings (`sub/../x`, a symlinked directory) must canonicalise to one key — otherwise it is processed twice and a depender can
     read it while the second run has it truncated (= C03 R03.6: AbsPath is built only from canonicalize())"""
     r03_6(ctx)
+
+
+@rule("C05", "R05.5", floor=1)
+def r05_5(ctx):
+    """the coordinator abandons outstanding work only for a failure it is told about: inside the receive loop an error is either
+    propagated (`?` / a wrapped worker or IO error) or the Disconnected arm. An error the coordinator constructs itself there (for
+    instance on seeing a self-dependency) would return while acyclic files are still unbuilt; cycles are reported after the loop, from
+    take_remaining()"""
+    lib = ctx.lib
+    ri = body(ctx, "txtpp_run_internal")
+    if not ri:
+        return
+    heads = [bb for bb, t in ri.calls() if C.callee_name(t) == TRY_RECV]
+    if not heads:
+        ctx.anchor_missing("try_recv loop in the coordinator")
+        return
+    disc = enum_edges(ri, lib, "std::sync::mpsc::TryRecvError", lambda vs: vs == {"Disconnected"}) | \
+        enum_edges(ri, lib, "std::sync::mpmc::TryRecvError", lambda vs: vs == {"Disconnected"})
+    disc_reg = C.region(ri, disc) if disc else set()
+    done_e = bool_call_edges(ri, lib, ROLE["progress_is_done"], True)
+    post = C.region(ri, done_e) if done_e else set()       # what runs after the loop was left because everything is done
+    in_loop = set()
+    for h in heads:
+        in_loop |= C.after_edges(ri, out_edges(ri, [h]))
+    FRESH = ("error_stack::Report::<C>::new", "<error_stack::Report<C> as std::convert::From<C>>::from")
+    n = 0
+    for bb, si, st in ri.stmts():
+        if not (st["k"] == "assign" and st["rv"]["k"] == "aggregate" and st["rv"]["agg"].get("adt") == "std::result::Result"
+                and st["rv"]["agg"].get("variant") == "Err" and st["lhs"]["l"] in ret_carriers(ri)):
+            continue
+        if bb not in in_loop:
+            continue
+        n += 1
+        lv = C.trace(ri, st["rv"]["ops"][0], through_decorators=True)
+        if not any(l.kind == "call" and C.callee_name(l.data) in FRESH for l in lv):
+            continue      # a wrapped worker / IO error
+        if bb in disc_reg or bb in post:
+            ctx.ok("coordinator-made error after the loop / in the Disconnected arm", site=ctx.site(ri, bb))
+        else:
+            ctx.violation([ri.name, "coordinator-error-in-loop"], "the coordinator returns an error it constructed itself from inside the receive loop: "
+                          "outstanding work (the acyclic part of the project) is abandoned; cycles must be reported after the loop has drained",
+                          site=ctx.site(ri, bb))
+    ctx.ok("errors returned from the receive loop are propagated worker/IO errors (%d error sites inspected)" % n, site=ctx.site(ri, heads[0]))
+
+
+@rule("C03", "R03.8", floor=1)
+def r03_8(ctx):
+    """results travel over an UNBOUNDED channel: workers never block in send, so ThreadPool::join in Drop (which runs before the
+    receiver is drained) always returns — with a bounded sync_channel a failing run with more pending results than capacity would
+    dead-lock"""
+    lib = ctx.lib
+    n = 0
+    for (b, kind, bb, names, obj) in C.all_mentions(lib, lambda ns: any(x.startswith("std::sync::mpsc::") and x.endswith("channel") for x in ns)):
+        n += 1
+        if any(x == "std::sync::mpsc::sync_channel" for x in names):
+            ctx.violation([b.name, "bounded-channel"], "the result channel is bounded (mpsc::sync_channel): a worker can block in send while the "
+                          "coordinator is not receiving (error return, Drop joins the pool first) — the run would never return", site=ctx.site(b, bb))
+        else:
+            ctx.ok("unbounded mpsc::channel|%s" % b.name, site=ctx.site(b, bb))
+    if n == 0:
+        ctx.anchor_missing("mpsc channel construction")
